@@ -15,7 +15,11 @@ import warnings
 
 import numpy as np
 
-TOL_POP = 2e-4     # populations (solver tolerance of the emulator is ~1e-6..1e-5 on these cases)
+TOL_POP = 5e-4     # C07 populations (solver error of the emulator is ~1e-6..1e-5 on these short cases)
+# C15: two long sequences through the ODE solver, one of them with a large detuning between the pulses: the
+# solver's own error reaches a few 1e-4 (measured: 2.0e-4 on a 1.5 us sequence at clock period 50); a wrong
+# drift correction moves the populations by 5e-3 .. 8e-2
+TOL_DRIFT = 2e-3
 
 
 def _device(case):
@@ -183,7 +187,7 @@ def run_drift(case: dict):
         pb = _final_populations(b)
     offs = [float(x.detuning_off) for x in sch.eom_blocks]
     # (the solver's own error grows with the detuning it has to integrate through)
-    tol = TOL_POP * max(1.0, max(abs(o) for o in offs) / 20.0)
+    tol = TOL_DRIFT * max(1.0, max(abs(o) for o in offs) / 20.0)
     if np.max(np.abs(pa - pb)) > tol:
         return (f"EOM sequence with phase-drift correction (detuning_off {offs}) ends with populations "
                 f"{[round(float(x), 6) for x in pa]}, the same pulses with zero off-detuning give "
